@@ -225,7 +225,13 @@ pub fn run(args: &Args) {
             d2.dest = format!("/srv/box{i}/inner"); d2.mode = Some(0o040000 | 0o2775); d2.len = 0; d2.link = None;
             cfg.files.extend([d, f, d2]);
         }
-        let Ok(Ok(p)) = guarded(|| gen_::build(&cfg, &wd)) else { continue };
+        // every fifth package is laid out in the large-file (stripped) archive format, reached through the hook
+        #[cfg(rpm_verif)]
+        if i % 5 == 4 { rpm::verif::set_large_file_threshold([1u64, 50, 0][(i as usize / 5) % 3]); }
+        let built = guarded(|| gen_::build(&cfg, &wd));
+        #[cfg(rpm_verif)]
+        rpm::verif::set_large_file_threshold(u32::MAX as u64);
+        let Ok(Ok(p)) = built else { continue };
         let mut bytes = vec![];
         p.write(&mut Plain(&mut bytes)).unwrap();
         let j = Jail::new(&format!("b{i}"));
